@@ -88,8 +88,6 @@ def gen_cases(tier, rng):
             container = "pa_chunked"
         else:
             container = rng.choice(["ndarray", "series"])
-        if container in ("pa_array", "pa_chunked", "pl_series", "pd_arrow") and "bool" in classes:
-            container = "ndarray"  # arrow booleans are bit-packed: the library's to_arrow() rejects them explicitly (no zero-copy view)
             if route == "gb_arrowchunks":
                 route = "gb_plain"
         case = dict(route=route, keys=cols, key_classes=classes, container=container, sort=rng.random() < 0.5)
